@@ -91,6 +91,9 @@ def r1(ctx, facts, cfg):
         others = [n for n in e.assignments_to_var(v) if not (n["k"] == "CompoundAssignOperator" and n["op"] == "&=")]
         init = e.var_decls().get(v, {}).get("init")
         loops = [n for n in e.walk() if n["k"] == "CXXForRangeStmt" and is_this_field(strip(n.get("range")), "_active_thread_contexts_cache")]
+        if not loops:
+            from rules.common import other_loop_over
+            other_loop_over(e, "_active_thread_contexts_cache", "_check_frontend_queues_and_cached_transit_events_empty")
         early = [x for lp in loops for x in walk(lp.get("body")) if x["k"] in ("BreakStmt", "ReturnStmt", "GotoStmt", "ContinueStmt")]
         refresh = bool(e.calls(r"::_update_active_thread_contexts_cache$"))
         ok = kinds == {"U", "B", "T"} and not others and bool(loops) and not early and refresh
